@@ -24,8 +24,8 @@ META = {
         "values are symbolic (yields, variations, uncertainties > 0), names concrete; the fault position is enumerated",
     ],
     "bounds": {
-        "quick": "6 well-formed base shapes (1-2 channels, 1-3 samples, 1-3 bins) x 9 fault classes x every applicable position (single faults)",
-        "thorough": "as quick plus pairs of faults on the two richest bases",
+        "quick": "6 well-formed base shapes (1-2 channels, 1-3 samples, 1-3 bins) x 10 fault classes x every applicable position (single faults)",
+        "thorough": "every single fault at every position of the six bases, of every member of family F whose POI is mu and of 24 seeded shapes (about 2100 faulty specifications)",
     },
     "stubs": [],
     "outside_claim": ["faults outside the nine listed classes", "names decided equal symbolically (N-engine) - here duplicates are injected concretely at every position"],
@@ -34,7 +34,7 @@ META = {
 PYHF_EXC = tuple(c for _, c in inspect.getmembers(pyhf.exceptions, inspect.isclass) if issubclass(c, Exception) and c.__module__ == "pyhf.exceptions")
 
 
-def bases():
+def bases(tier="quick", seed=0):
     B = []
     B.append(("b1", [channel("SR", sample("sig", 2, normfactor()), sample("bkg", 2, histosys("h", 2), normsys("k"), staterror("st_SR", 2)))], None))
     B.append(("b2", [channel("SR", sample("sig", 2, normfactor()), sample("bkg", 2, shapesys("u", 2), normsys("k"))),
@@ -44,6 +44,11 @@ def bases():
                      channel("B", sample("b", 2, shapefactor("sf"), staterror("stB", 2)), sample("c", 2, staterror("stB", 2)))], None))
     B.append(("b5", [channel("A", sample("s", 3, normfactor(), histosys("h", 3)), sample("b", 3, histosys("h", 3), shapesys("u", 3)))], None))
     B.append(("b6", [channel("Z", sample("s", 1, normfactor())), channel("Y", sample("s", 2, normfactor(), normsys("k")), sample("b", 2, normsys("k")))], None))
+    if tier != "quick":
+        # thorough: every member of family F whose POI is "mu" and 24 seeded shapes as further bases
+        for sh in shapes.family_core() + shapes.family_plus(seed, 24):
+            if sh.get("poi") == "mu":
+                B.append(("F:" + sh["tag"], sh["spec"]["channels"], sh["spec"].get("parameters")))
     return B
 
 
@@ -152,8 +157,8 @@ def faults(base):
         emit(f"override-len:{key}", target, s, False)
     # 8 POI undefined / multi-component
     emit("poi:undefined", "nosuch", copy.deepcopy(spec0), False, poi="nosuch")
-    for _, _, m in shapes.walk_mods(spec0):
-        if m["type"] in ("shapesys", "staterror", "shapefactor"):
+    for _, smp, m in shapes.walk_mods(spec0):
+        if m["type"] in ("shapesys", "staterror", "shapefactor") and len(smp["data"]) >= 2:     # a one-bin set is a valid POI
             emit("poi:multi-component", m["name"], copy.deepcopy(spec0), False, poi=m["name"])
             break
     # 9 lumi modifier without luminosity settings
@@ -161,19 +166,30 @@ def faults(base):
     s.pop("parameters", None)
     s["channels"][0]["samples"][0]["modifiers"].append(lumi())
     emit("lumi-noconfig", "ch0.s0", s, False)
+    # 10 luminosity settings present but incomplete (none of the four has a default)
+    if any(m["type"] == "lumi" for _, _, m in shapes.walk_mods(spec0)):
+        for drop in (("inits",), ("bounds",), ("auxdata",), ("sigmas",), ("inits", "bounds", "auxdata", "sigmas")):
+            s = copy.deepcopy(spec0)
+            for p in s.get("parameters", []):
+                if p["name"] == "lumi":
+                    for k in drop:
+                        p.pop(k, None)
+                    if len(drop) > 1:
+                        p["fixed"] = True
+            emit("lumi-partial", "+".join(drop) if len(drop) == 1 else "only-fixed", s, False)
     return out
 
 
-def _all_items(tier):
+def _all_items(tier, seed=0):
     out = []
-    for b in bases():
+    for b in bases(tier, seed):
         for k, (cls, pos, shape, meaningful) in enumerate(faults(b)):
             out.append((b[0], k, cls, pos))
     return out
 
 
 def items(tier, seed):
-    return _all_items(tier)
+    return _all_items(tier, seed)
 
 
 def _rates_as_written(env, spec, par, interp_fn):
@@ -206,7 +222,7 @@ def harness_for(item):
     btag, k, cls, pos = item
 
     def h(env):
-        base = [b for b in bases() if b[0] == btag][0]
+        base = [b for b in bases(env.tier, env.seed) if b[0] == btag][0]
         fcls, fpos, shape, meaningful = faults(base)[k]
         assert (fcls, fpos) == (cls, pos)
         tb = env.install_backend()
